@@ -1,3 +1,3 @@
 From Coq Require Import ExtrOcamlBasic.
-From PTK Require Import Lib.Sx Model.C03_Vt100Parser Model.C03_Vt100Input Model.C03_Cache Model.C03_Utf8Spec Model.C03_Errors.
-Extraction "c03_model.ml" run_C03_all3.
+From PTK Require Import Lib.Sx Model.C03_Vt100Parser Model.C03_Vt100Input Model.C03_Cache Model.C03_Utf8Spec Model.C03_Errors Model.C03_RegexMatch Model.C03_Run7.
+Extraction "c03_model.ml" run_C03_all4.
